@@ -56,7 +56,7 @@ WkOf(st) ==
                            : i \in DOMAIN r.running},
             backlog |-> UNION {{r.backlog[i].tasks[k].t : k \in DOMAIN r.backlog[i].tasks} : i \in DOMAIN r.backlog},
             blocked |-> SeqSet(r.blocked), s2w |-> r.s2w, w2s |-> r.w2s, stopped |-> r.stopped,
-            remaining |-> r.remaining]]
+            remaining |-> r.remaining, free |-> r.free]]
 JobOfSt(st) ==
   LET js == st.jobs
   IN [j \in {js[i].id : i \in DOMAIN js} |->
@@ -80,7 +80,7 @@ NewTaskInfo(e, old) ==
              IF g # <<>> /\ \E i \in DOMAIN g : g[i].id = t % 1000
              THEN LET x == CHOOSE x \in SeqSet(g) : x.id = t % 1000
                   IN [job |-> j, deps |-> {j * 1000 + x.deps[i] : i \in DOMAIN x.deps}, prio |-> x.prio, rq |-> x.class,
-                      climit |-> e.args.crash_limit, tlimit |-> e.args.time_limit, maxFails |-> mf]
+                      climit |-> e.args.crash_limit, tlimit |-> x.tl, maxFails |-> mf]
              ELSE [job |-> j, deps |-> {}, prio |-> e.args.prio, rq |-> e.args.class,
                    climit |-> e.args.crash_limit, tlimit |-> e.args.time_limit, maxFails |-> mf]]
   ELSE <<>>
@@ -134,14 +134,14 @@ StateProps == <<
   <<"C03_NeverStartedAfterFailedDep", C03_NeverStartedAfterFailedDep>>,
   <<"C03_PropagateAtRest", C03_PropagateAtRest>>, <<"C03_Unaffected", C03_Unaffected>>,
   <<"AUX_DepsCounted", C03_DepsCounted>>,
-  <<"C04_RunningExclusive", C04_RunningExclusive>>, <<"C04_RunningExact", C04_RunningExact>>,
+  <<"C04_RunningExclusive", C04_RunningExclusive>>, <<"C04_RunningExact", C04_RunningExact>>, <<"C04_Conserved", C04_Conserved>>,
   <<"C05_NoOverbook", C05_NoOverbook>>, <<"C05_PlacedCapable", C05_PlacedCapable>>,
   <<"C05_MnExclusive", C05_MnExclusive>>, <<"C05_MnWorkersIdle", C05_MnWorkersIdle>>,
   <<"C06_OneExecution", C06_OneExecution>>, <<"C06_InstMonotone", C06_InstMonotone>>,
   <<"C07_CrashBounds", C07_CrashBounds>>, <<"C07_FailOnlyAtLimit", C07_FailOnlyAtLimit>>,
   <<"C07_LimitReachedFails", C07_LimitReachedFails>>,
   <<"C08_NoReportAfterAck", C08_NoReportAfterAck>>, <<"C08_Released", C08_Released>>,
-  <<"C08_StopSent", C08_StopSent>>, <<"C08_NoDangling", C08_NoDangling>>,
+  <<"C08_StopSent", C08_StopSent>>, <<"C08_NoDangling", C08_NoDangling>>, <<"C08_OthersNotStuck", C08_OthersNotStuck>>,
   <<"C13_CountersMatch", C13_CountersMatch>>, <<"C13_CompletedOnce", C13_CompletedOnce>>,
   <<"C13_StreamGetsCompletion", C13_StreamGetsCompletion>>,
   <<"C14_AbortAllOnExceed", C14_AbortAllOnExceed>>, <<"C14_ExceededStopped", C14_ExceededStopped>>,
